@@ -46,9 +46,9 @@ YOUR TASK: produce TWO different changes (different root causes, in different fu
 This property has already been attacked many times. The following ideas are TAKEN - do not reuse their mechanism or their trigger, and do not produce a variation of them:
 @AVOID@
 
-Also taken as general mechanisms (for any property): a checksum / cache keyed on normalised, collapsed or tokenised source text; a weak change-detection fingerprint (adler32 / crc32 / length); functools.lru_cache or a memo on the compiled function, on parse_source, on rendering, on the stats helpers or on the choice function; skipping a recompile when the AST compares equal or the source is blank; a module- or class-level shared lexer / parser / code generator / exec namespace / compiled-function table; json.dumps / f-string / str.format / template-marker rendering of strings or of the key; a docstring or comment in the generated code that embeds user text; re-wrapping long generated lines; Unicode normalisation (NFC / NFKC), str.strip, str.splitlines, expandtabs or escape processing of literals or of the source; os.fsencode / locale-dependent encodings; "path or source text" conveniences (os.path.isfile, a .pyab suffix); `if not input_id` and `weight or 1` falsy-zero slips; greedy, fast-path or regex-prepass comment handling; sly's `ignore` string; signed, octal or hex numeric tokens in the lexer; weights rendered with %g or passed through float / Decimal / Fraction; merging, sorting, de-duplicating or dropping groups of a return statement; an exact-integer path for big totals; dividing the hash by 2^32-1 or using more digest bytes; validation under `if __debug__`; field names colliding with Python, helper or API parameter names; lazily built parser tables; deferred code generation; class-level mutable state in PythonCodeGen; extra recursion frames in the code generator; positional-parameter insertion in the stats helper; swapping confidence < 0.5; an absolute tolerance on a variance; StrictStr / constr / validators on AST fields; constant-folding of literal-only predicates; a bare identifier as a predicate; a generic header-option list; EBNF-style repetition for else-if; converting integral floats to ints in __call__; type guards on splitter values; eager debug logging of kwargs; a `last_variant` attribute; a process-CPU-time budget; `match` on list() for the weights; a Counter of returned groups; an `optimize` flag with a single-group fast path; __reduce__ / copy support; lifting or resetting sys.set_int_max_str_digits; a failed recompile that leaves the evaluator unloaded, leaks a lock or turns later recompiles into no-ops (single-flight); de-duplicating predicates across chains; a left-recursive tuple rule that reverses members; dropping parentheses around boolean sub-expressions; chunked parsing of long integers; a set / frozenset for literal `in` tuples; Token.__len__ truthiness; `weight : literal`; lowering else-if to nested ifs (indentation depth); a table-driven operator rule keyed by token text; a one-regex block comment that needs a body character; rejecting control characters; filtering kwargs with .get defaults; an isclose even-split fast path; a symbol table in which a condition use overwrites a splitter; smart-quote translation; nested block comments; version-aware string comparison; computing the key before routing; prefixing exception messages; compensated (Kahan) summation; a private Random instance; a shared generator for code-object file names; clamping the probit argument; rounding p*n; case-folding the key; a zero-weights check inside the recursive grammar rule; a guard against absorbed weights; a random fallback for ids that cannot be encoded; a cached_property of required fields; moving the field to the left of a comparison (un-Yoda); a typed tuple model without smart_union, or a Union that lists the model first; snapping a total to 1.0 with isclose; warnings.warn for zero weights; folding `not` into the complementary comparison; folding a guard-only nested if into `and`; an interval test for runs of consecutive integers; `\w` in the identifier pattern; a nullable tuple-member list; a nesting limit that counts chain links; a brace-balance pre-check; `salt\s*:` as one token; a regex that finds the experiment name in the raw source; case-insensitive ordering or matching of field names; a linear scan for short weight lists; iterating a set when building the key; replaying the last call as a canary on recompile; an id-clash check that mutates a module-level list; `sorted(splitting_fields)` with duplicates; bisect_left; `if salt:` for the empty salt; dropping a test whose branches are equal; `from math import inf` in the generated header; sampled tracing that draws from the global RNG; passing a lone splitter raw as the key; floor-division by a rounded bucket width; an epsilon in the non-positive-total check; one exec namespace shared by recompiles; a registry of live evaluators iterated while it changes; an int p read as a success count; clipping the interval to [0, 1].
+Also taken as general mechanisms (for any property): a checksum / cache keyed on normalised, collapsed or tokenised source text; a weak change-detection fingerprint (adler32 / crc32 / length); functools.lru_cache or a memo on the compiled function, on parse_source, on rendering, on the stats helpers or on the choice function; skipping a recompile when the AST compares equal or the source is blank; a module- or class-level shared lexer / parser / code generator / exec namespace / compiled-function table; json.dumps / f-string / str.format / template-marker rendering of strings or of the key; a docstring or comment in the generated code that embeds user text; re-wrapping long generated lines; Unicode normalisation (NFC / NFKC), str.strip, str.splitlines, expandtabs or escape processing of literals or of the source; os.fsencode / locale-dependent encodings; "path or source text" conveniences (os.path.isfile, a .pyab suffix); `if not input_id` and `weight or 1` falsy-zero slips; greedy, fast-path or regex-prepass comment handling; sly's `ignore` string; signed, octal or hex numeric tokens in the lexer; weights rendered with %g or passed through float / Decimal / Fraction; merging, sorting, de-duplicating or dropping groups of a return statement; an exact-integer path for big totals; dividing the hash by 2^32-1 or using more digest bytes; validation under `if __debug__`; field names colliding with Python, helper or API parameter names; lazily built parser tables; deferred code generation; class-level mutable state in PythonCodeGen; extra recursion frames in the code generator; positional-parameter insertion in the stats helper; swapping confidence < 0.5; an absolute tolerance on a variance; StrictStr / constr / validators on AST fields; constant-folding of literal-only predicates; a bare identifier as a predicate; a generic header-option list; EBNF-style repetition for else-if; converting integral floats to ints in __call__; type guards on splitter values; eager debug logging of kwargs; a `last_variant` attribute; a process-CPU-time budget; `match` on list() for the weights; a Counter of returned groups; an `optimize` flag with a single-group fast path; __reduce__ / copy support; lifting or resetting sys.set_int_max_str_digits; a failed recompile that leaves the evaluator unloaded, leaks a lock or turns later recompiles into no-ops (single-flight); de-duplicating predicates across chains; a left-recursive tuple rule that reverses members; dropping parentheses around boolean sub-expressions; chunked parsing of long integers; a set / frozenset for literal `in` tuples; Token.__len__ truthiness; `weight : literal`; lowering else-if to nested ifs (indentation depth); a table-driven operator rule keyed by token text; a one-regex block comment that needs a body character; rejecting control characters; filtering kwargs with .get defaults; an isclose even-split fast path; a symbol table in which a condition use overwrites a splitter; smart-quote translation; nested block comments; version-aware string comparison; computing the key before routing; prefixing exception messages; compensated (Kahan) summation; a private Random instance; a shared generator for code-object file names; clamping the probit argument; rounding p*n; case-folding the key; a zero-weights check inside the recursive grammar rule; a guard against absorbed weights; a random fallback for ids that cannot be encoded; a cached_property of required fields; moving the field to the left of a comparison (un-Yoda); a typed tuple model without smart_union, or a Union that lists the model first; snapping a total to 1.0 with isclose; warnings.warn for zero weights; folding `not` into the complementary comparison; folding a guard-only nested if into `and`; an interval test for runs of consecutive integers; `\w` in the identifier pattern; a nullable tuple-member list; a nesting limit that counts chain links; a brace-balance pre-check; `salt\s*:` as one token; a regex that finds the experiment name in the raw source; case-insensitive ordering or matching of field names; a linear scan for short weight lists; iterating a set when building the key; replaying the last call as a canary on recompile; an id-clash check that mutates a module-level list; `sorted(splitting_fields)` with duplicates; bisect_left; `if salt:` for the empty salt; dropping a test whose branches are equal; `from math import inf` in the generated header; sampled tracing that draws from the global RNG; passing a lone splitter raw as the key; floor-division by a rounded bucket width; an epsilon in the non-positive-total check; one exec namespace shared by recompiles; a registry of live evaluators iterated while it changes; an int p read as a success count; clipping the interval to [0, 1]; binding the compiled function on the instance under the experiment's id; hash() of a tuple in the key; folding an or-chain of equalities into `in`; repr(tuple(...)) for tuple literals; ast.literal_eval for numbers; rounding the scaled hash position; escaping builtin / keyword field names with a trailing underscore; a constant key for a salt without splitters; decoding bytes values; a tolerance in == against float literals; exact-match keyword remapping that drops a word boundary; extra productions for `else` + `if` / `not` + `in`; a %-formatted unroutable message; a line comment that needs its line break; a recursive tokenize per lexer state change; all() / any() for long and / or chains; the experiment id as default salt; remembering every checksum ever loaded; a substring test instead of equality on the stored source; a map iterator consumed by a DEBUG log line; wrapping operands in str() depending on repr's quote; os.path.expandvars on the source; dropping an import decided before the traversal; pop() on the caller's cum_weights; sorted(values) == values on non-lists; clearing the previous exec namespace; a generation ticket in recompile; 2*atanh for the logit; stripping non-letters from the method name; math.isnan on huge ints; duck-typing .hex().
 
-So you must find something genuinely NEW, and it must be a change a reviewer would wave through. Some unexplored directions: closures or lambdas in the generated code that capture a loop variable late; a well-meant FIX for the reserved-word problem that mangles parameter names (prefix / suffix) and thereby makes two distinct field names collide, or sanitises the experiment id; what black does to the generated text (quote preference, numeric-literal normalisation, `preview` string processing, target versions) when the unformatted text is what the evaluator executes; `ast.literal_eval` / `str.isdigit` / `str.isidentifier` used on token text; how an `if` chain without else raises when it is NESTED inside another chain (where the raise is placed, what falls through); mutating or re-ordering the caller's kwargs dict, coercing input types (bool -> int, Decimal / numpy scalars -> float, bytes -> str); pre-computing cumulative weights at code-generation time; `usedforsecurity=False`, `hashlib.new`, `digest()` versus `hexdigest()`; the classical "add 2 successes and 2 failures" shortcut for a 95% Agresti-Coull interval, using the statistics module's NormalDist for the quantile, a z table keyed by rounded confidence; sly precedence declarations (`left` / `right` / `nonassoc`) for `and` / `or` / `not` and the comparisons; line-number tracking rules in the lexer and what they do to `\r\n`, form feeds or tabs; `__call__` accepting a positional dict; `recompile` returning a value / being chained; `__repr__` / `__eq__` of the evaluator; context managers and `try/finally` around the exec; the `ExperimentConditionalFailedError` message and class hierarchy (subclassing ValueError / KeyError so that callers' except clauses change behaviour).
+So you must find something genuinely NEW, and it must be a change a reviewer would wave through. Some unexplored directions: caches keyed by id(obj) or held in a WeakValueDictionary (object ids are reused after garbage collection); `is` where `==` is meant (small-int and interned-string caching hide it in tests); time-based behaviour (a TTL on a cache, `time.monotonic()` rate limiting of recompiles, a debounce); per-thread cached lexers / parsers (`threading.local`) that keep state after an error in that thread; default values, keyword-only / positional-only markers or type annotations in the generated signature; the generated code's handling of a field that is BOTH a splitter and compared inside a tuple; a code generator that mutates the AST it was given (sorting, normalising, popping) so that a second `generate()` or a second layout differs; `re` flags on the lexer (VERBOSE, DOTALL, MULTILINE) and anchors in token patterns; seeding a `random.Random(key)` instead of using the hash position; sample-variance (n-1) or continuity corrections in the interval helper, swapped bounds, returning a list / namedtuple; `sys.flags.utf8_mode`, `PYTHONIOENCODING`, `sys.getdefaultencoding()` assumptions; `str.title()` / `str.capitalize()` / locale-aware `str.lower()` on names; integer overflow assumptions when packing the hash position (`struct.unpack`, numpy-style 32-bit arithmetic); `round()` half-to-even versus floor when mapping a position to an index; Python's `bool` being an `int` (True == 1) in weights, group values or tuple members; augmented assignment on shared default arguments (`def f(x, acc=[])`).
 
 For each change write, inside @BASE@/@ID@/seeded/ (create it):
 
